@@ -290,6 +290,85 @@ def rule_diagonal(ctx, res):
     # Option fields of the envelope are not serialized as null: serde_bencode skips None (trusted) - presence is by Option
 
 
+def _want_flags_automaton(vb, vs, wv):
+    """want decoder keeping two `bool` flags: returns the transition table {(state, tag): {new state}} it implements over the
+    states None / V4 / V6 / Both, or None when the function is not of that shape.
+    flags start false; a recognised tag sets exactly one flag and never clears one; after the loop (f1, f2) is mapped to a state"""
+    flags = [l for l, d in enumerate(vb.locals) if d.get('ty') == 'bool' and d.get('user') and d.get('mut') and l > vb.arg_count]
+    if len(flags) != 2:
+        return None
+    # initial values: every assignment outside the loop is the constant false
+    vs.loop_info()
+    inloop = set()
+    for comp in getattr(vs, '_loop_bodies', []):
+        inloop |= set(comp)
+    for l in flags:
+        for bi, blk in enumerate(vb.blocks):
+            for st in blk['stmts']:
+                if st['k'] == 'assign' and st['place']['l'] == l and not st['place']['p'] and bi not in inloop:
+                    rv = st['rv']
+                    ok0 = (rv['k'] == 'use' and rv['op'].get('k') == 'const' and rv['op'].get('int') == 0) or \
+                          (rv['k'] == 'use' and rv['op'].get('k') in ('copy', 'move') and rv['op']['place'].get('p'))     # `let (mut a, mut b) = (false, false)`
+                    if not ok0:
+                        return None
+    def flag_of(t):
+        t = strip_transparent(t)
+        return t[1] if isinstance(t, tuple) and t and t[0] == 'loopvar' and t[1] in flags else None
+    # state mapping after the loop
+    final = {}
+    for p in vs.complete_paths():
+        if agg_variant(p.ret) != 'Ok':
+            continue
+        val = {}
+        for c in p.conds:
+            rel, a, b2, truth = literal(c)
+            if rel == 'bool' and flag_of(a) is not None and truth is not None:
+                val[flag_of(a)] = bool(truth)
+        if set(val) != set(flags):
+            return None
+        o = p.ret[2].get('0')
+        stt = 'None' if agg_variant(o) == 'None' else agg_variant(o[2].get('0')) if agg_variant(o) == 'Some' else '?'
+        final.setdefault(tuple(val[l] for l in flags), set()).add(stt)
+    if len(final) != 4 or any(len(v) != 1 for v in final.values()):
+        return None
+    state = {k: next(iter(v)) for k, v in final.items()}
+    if sorted(state.values()) != ['Both', 'None', 'V4', 'V6'] or state[(False, False)] != 'None' or state[(True, True)] != 'Both':
+        return None
+    # transitions of one iteration
+    step = {}
+    for p in vs.paths:
+        if p.end != 'loop':
+            continue
+        word = None
+        for c in p.conds:
+            rel, a, b2, truth = literal(c)
+            if rel == 'eq' and isinstance(b2, tuple) and b2[0] == 'str' and find_calls(a, '::trim') and truth:
+                word = b2[1]
+        eff = []
+        for l in flags:
+            t = p.env.get(l)
+            if flag_of(t) == l:
+                eff.append('keep')
+            elif term_int(t) == 1:
+                eff.append('set')
+            else:
+                return None            # cleared or computed: not this shape
+        if word is None:
+            if eff != ['keep', 'keep']:
+                return None
+            continue
+        step.setdefault(word.lower(), set()).add(tuple(eff))
+    if any(len(v) != 1 for v in step.values()):
+        return None
+    trans = {}
+    for word, effs in step.items():
+        eff = next(iter(effs))
+        for cur, name in state.items():
+            new = tuple(True if e == 'set' else c for e, c in zip(eff, cur))
+            trans.setdefault((name, word), set()).add(state[new])
+    return trans
+
+
 def rule_compact(ctx, res):
     c = {n: ctx.f.const_value('compact::' + n) for n in ('SOCKET_ADDR_V4_LEN', 'SOCKET_ADDR_V6_LEN')}
     nid = ctx.f.const_value('info_hash::NODE_ID_LEN')
@@ -439,9 +518,25 @@ def rule_compact(ctx, res):
     es.run()
     oke = bool(es.complete_paths())
     APPEND = ('extend', 'extend_from_slice')
+
+    def pieces(p):
+        """the byte pieces the result is made of, in order: appended one after the other, or `[a, b].concat()`"""
+        ext = [e[2][1] for e in p.effects if e[0] == 'call' and e[1] and e[1].split('::')[-1] in APPEND]
+        if ext:
+            return ext
+        r = p.ret
+        while isinstance(r, tuple) and r and r[0] in ('ref', 'deref', 'cast'):
+            r = r[1]
+        if isinstance(r, tuple) and r[0] == 'call' and r[1].split('::')[-1] == 'concat' and len(r[2]) == 1:
+            a = r[2][0]
+            while isinstance(a, tuple) and a and a[0] in ('ref', 'deref', 'cast'):
+                a = a[1]
+            if isinstance(a, tuple) and len(a) == 2 and a[0] == 'array':
+                return list(a[1])
+        return []
     for p in es.complete_paths():
-        ext = [e for e in p.effects if e[0] == 'call' and e[1] and e[1].split('::')[-1] in APPEND]
-        if len(ext) != 2 or not find_calls(ext[0][2][1], '::octets') or not find_calls(ext[1][2][1], 'to_be_bytes') or not find_calls(ext[1][2][1], '::port'):
+        ext = pieces(p)
+        if len(ext) != 2 or not find_calls(ext[0], '::octets') or not find_calls(ext[1], 'to_be_bytes') or not find_calls(ext[1], '::port'):
             oke = False
     res.check(oke, 'TABLE', eb.path, 'compact address = address octets followed by the big-endian port (sibling of from_be_bytes)')
     # .. and the family written is the family of the address given (an IPv6 socket address is 18 bytes whatever its
@@ -465,10 +560,10 @@ def rule_compact(ctx, res):
         raise lib.Lost('encode_socket_addr: unrecognised condition %s %s' % (rel, fmt(a)))
 
     def outcome_e(p):
-        ext = [e for e in p.effects if e[0] == 'call' and e[1] and e[1].split('::')[-1] in ('extend', 'extend_from_slice')]
+        ext = pieces(p)
         if not ext:
             return 'no-octets'
-        oc = find_calls(ext[0][2][1], '::octets')
+        oc = find_calls(ext[0], '::octets')
         if len(oc) != 1:
             return 'no-octets'
         # the octets are those of the given address: only `ip()` accessors between the parameter and octets()
@@ -657,6 +752,10 @@ def rule_port_and_want(ctx, res):
                         els.append(x[1])
                     if isinstance(x, tuple) and x and x[0] == 'str':
                         els.append(x[1])
+                    if isinstance(x, tuple) and len(x) == 2 and x[0] == 'named':
+                        cv = ctx.f.const_value(x[1])          # a named byte-string constant (`const TAG_V4: &[u8] = b"n4"`)
+                        if isinstance(cv, list):
+                            els.append(str(cv))
         if not els:
             done = [literal(c)[1] for c in p.conds if literal(c)[0] == 'variant' and isinstance(literal(c)[1], tuple) and literal(c)[1][0] == 'call'
                     and literal(c)[1][1].split('::')[-1] == 'next' and option_is_some(literal(c)[2]) is False]
@@ -688,6 +787,14 @@ def rule_port_and_want(ctx, res):
     vs.run()
     res.paths += len(vs.paths)
     trans = {}
+    # the decoder's state: the loop-carried Option<Want> variable (whatever it is called)
+    state_locals = {l for l, d in enumerate(vb.locals) if d.get('user') and d.get('ty') == 'std::option::Option<message::Want>' and l > vb.arg_count}
+
+    def on_state(t):
+        for x in term_walk(t):
+            if isinstance(x, tuple) and len(x) >= 3 and x[0] in ('loopvar', 'local') and x[1] in state_locals:
+                return True
+        return False
     for p in vs.paths:
         if p.end != 'loop':
             continue
@@ -696,7 +803,7 @@ def rule_port_and_want(ctx, res):
         neg = set()
         for c in p.conds:
             rel, a, b2, truth = literal(c)
-            if rel == 'variant' and 'value' in fmt(a) and not find_calls(a, 'next_element'):
+            if rel == 'variant' and on_state(a) and not find_calls(a, 'next_element'):
                 if a[0] == 'loopvar' or (a[0] in ('local', 'loopvar')):
                     cur &= ({'V4', 'V6', 'Both'} if option_is_some(b2) else {'None'})
                 else:
@@ -716,7 +823,7 @@ def rule_port_and_want(ctx, res):
         # the value assigned to `value` on this iteration: last env of local named value is not exposed; use the aggregate in effects
         val = None
         for l, t in p.env.items():
-            if vb.local_name(l) == 'value':
+            if l in state_locals:
                 val = t
         if isinstance(val, tuple) and val[0] == 'agg':
             new = agg_variant(val[2].get('0')) if agg_variant(val) == 'Some' else 'None'
@@ -727,6 +834,12 @@ def rule_port_and_want(ctx, res):
                 trans.setdefault((k, word.lower()), set()).add(new)
     want = {('None', 'n4'): {'V4'}, ('None', 'n6'): {'V6'}, ('V4', 'n6'): {'Both'}, ('V6', 'n4'): {'Both'}}
     got = {k: v for k, v in trans.items() if k in want}
+    if got != want:
+        # form B: the families seen are kept in two boolean flags and mapped to Option<Want> after the loop
+        fb = _want_flags_automaton(vb, vs, wv)
+        if fb is not None:
+            got = {k: v for k, v in fb.items() if k in want}
+            trans = fb
     res.check(got == want, 'TABLE', vb.path, 'decode want: n4 -> V4, n6 -> V6, both in either order -> Both (case-insensitive, other strings ignored)', detail=str(trans))
 
 
